@@ -273,6 +273,24 @@ def _single_calls() -> dict[str, dict[str, Any]]:
     add("lax.top_k(k=2)", lambda x: lax.top_k(x, k=2)[0], X)
     add("lax.rsqrt", lambda x: lax.rsqrt(jnp.abs(x) + 1), X)
     add("lax.integer_pow(y=3)", lambda x: lax.integer_pow(x, y=3), X)
+    if hasattr(jax.nn, "logmeanexp"):
+        add("nn.logmeanexp(axis=0,keepdims=True)", lambda x: jax.nn.logmeanexp(x, axis=0, keepdims=True), X)
+        add("nn.logmeanexp(axis positional, keepdims positional)", lambda x: jax.nn.logmeanexp(x, 1, None, True), X)
+        add("nn.logmeanexp(axis=None,keepdims=True)", lambda x: jax.nn.logmeanexp(x, keepdims=True), X)
+        add("nn.logmeanexp(where=)", lambda x: jax.nn.logmeanexp(x, axis=1, where=x > -0.2), X)
+    add("nn.logsumexp(axis=None,keepdims=True)", lambda x: jax.nn.logsumexp(x, keepdims=True), X)
+    add("nn.logsumexp(return_sign=True)", lambda x: jax.nn.logsumexp(x, axis=0, b=x, return_sign=True), X)
+    add("nn.softmax(axis=None)", lambda x: jax.nn.softmax(x, axis=None), X)
+    add("nn.relu6", lambda x: jax.nn.relu6(x * 8), X)
+    add("nn.sigmoid", lambda x: jax.nn.sigmoid(x), X)
+    add("nn.softplus", lambda x: jax.nn.softplus(x), X)
+    add("nn.silu", lambda x: jax.nn.silu(x), X)
+    # the same calls with non-floating operands (JAX promotes; the substitute may take another path)
+    for name in list(C):
+        spec = C[name]
+        if spec["sig"] and all(np.dtype(dt) == np.float32 for _, dt in spec["sig"]) and not name.startswith(("lax.conv", "lax.fori", "lax.scan")):
+            for tag, dt in (("int32", np.int32), ("bool", np.bool_)):
+                C[f"{name}@{tag}"] = {"fn": spec["fn"], "sig": [(shp, dt) for shp, _ in spec["sig"]], "ints": (-3, 4), "operand": tag}
     return C
 
 
@@ -393,7 +411,9 @@ def _call_case(case: dict[str, Any], seed: int) -> dict[str, Any]:
     rng = np.random.default_rng([seed, stable_hash(case["key"]) % 2**31])
     xs = []
     for shape, dt in spec["sig"]:
-        if np.issubdtype(dt, np.integer):
+        if np.dtype(dt) == np.bool_:
+            xs.append(rng.random(shape) < 0.5)
+        elif np.issubdtype(dt, np.integer):
             lo, hi = spec.get("ints") or (0, 3)
             xs.append(rng.integers(lo, hi, shape).astype(dt))
         else:
@@ -413,7 +433,8 @@ def _call_case(case: dict[str, Any], seed: int) -> dict[str, Any]:
         inner = frames[-1].filename if frames else ""
         rec["evals"] = 1
         if _BIND_RE.search(msg) and ("/jax2onnx/" in inner or "checks/c19" in inner):
-            rec["violations"].append({"family": fam, "kind": "binding", "cls": case["name"], "text": f"{case['name']}: valid in eager JAX, fails while traced because the substitute binds arguments differently: {msg[:200]}"})
+            # how the substitute binds its arguments does not depend on the operand dtype: same class as the base form
+            rec["violations"].append({"family": fam, "kind": "binding", "cls": case["name"].split("@")[0], "text": f"{case['name']}: valid in eager JAX, fails while traced because the substitute binds arguments differently: {msg[:200]}"})
             rec["status"] = "violated"
         else:
             rec["obs"]["rejected_with_TypeError_from_library"] = 1
